@@ -286,5 +286,5 @@ def run(ctx):
             ctx.sample({"summary": gspec.summary(sp),
                         "references_checked": after - before})
 
-    for case in ctx.cases("refs", ctx.params.get("n_refs", 400)):
+    for case in ctx.cases("refs", int(ctx.params.get("n_refs", 400) * (0.15 if ctx.params.get("config") == "python" else 1))):
         ctx.run_case(case, one)
